@@ -306,6 +306,53 @@ func properties() map[string]*propDef {
 		Rule:           "filter counts x recovery switch x encoding switch x entry point; the panic position is a symbolic choice over every position of the chain; each run is followed by a normal request on the same container",
 		RequiredCovers: []string{"raised", "not-raised", "recovery-on", "recovery-off", "nothing-written-before", "partial-output-before"},
 	}
+	m["C11"] = &propDef{
+		ID: "C11",
+		Items: func(tier string, seed int) []item {
+			const n = 9 // root path menu
+			var out []item
+			add := func(router int, ops ...int) {
+				cfg := []int{0, 0, 0, 0, router}
+				copy(cfg, ops)
+				out = append(out, item{Harness: "H_C11", Cfg: cfg, Label: "history op1..op4 (10+i Add, 30+i Remove, 50+i Route, 70+i RemoveRoute on root menu entry i; 90 Handle(/plain)), router"})
+			}
+			for i := 0; i < n; i++ {
+				add(0, 10+i)
+				add(0, 10+i, 50+i)
+				add(0, 10+i, 50+i, 70+i)
+				add(0, 10+i, 90)
+				for j := 0; j < n; j++ {
+					if i == j {
+						continue
+					}
+					add(0, 10+i, 10+j)
+					add(0, 10+i, 10+j, 30+i)
+					add(0, 10+i, 10+j, 30+j)
+					if (i+j+seed)%4 == 0 || tier == "thorough" {
+						add(1, 10+i, 10+j, 30+i)
+						add(0, 10+i, 90, 10+j, 30+i)
+						add(0, 10+i, 10+j, 30+i, 10+i)
+					}
+					if tier == "thorough" {
+						for k := 0; k < n; k++ {
+							if k == i || k == j {
+								continue
+							}
+							add(0, 10+i, 10+j, 10+k)
+							add(0, 10+i, 10+j, 10+k, 30+j)
+						}
+					}
+				}
+			}
+			return out
+		},
+		Bounds: map[string]interface{}{"history_length": "<= 4 operations from the empty container", "root_path_menu": []string{"/", "/a", "/a/", "/a/b", "/ab", "/{x}", "/a/{x}", "/a/{x}/c", "/a/{x}/d"},
+			"probe_path_bytes": 8, "probe_segments": 3, "probe_method": "GET"},
+		Assumptions: append([]string{"ServeMux is modelled by the Go 1.21 matching rules; probe paths that are not clean (the real mux redirects them) end the path as unmodelled",
+			"histories are enumerated explicitly (the inductive formulation of DESIGN 5/C11 was not built); the probe request is symbolic"}, commonAssumptions...),
+		Rule:           "enumerated histories over Add/Remove/Route/RemoveRoute/Handle on the root path menu (quick: all ordered pairs with each removal, a seeded quarter with a fourth operation or RouterJSR311; thorough: all, plus all triples); the history-built container and a fresh one with the model's content get the same symbolic probe through Dispatch and ServeHTTP",
+		RequiredCovers: []string{"dispatch-routed", "serve-routed", "serve-404"},
+	}
 	m["C15"] = &propDef{
 		ID: "C15",
 		Items: func(tier string, seed int) []item {
